@@ -893,7 +893,9 @@ def install(mod):
             new = SimLock()
         elif isinstance(val, _RLockType):
             new = SimRLock()
-        elif isinstance(val, dict) and name.isupper() and 'LOCK' in name:
+        elif isinstance(val, (dict, set, list)) and not val and not name.startswith('__'):
+            # module-level registry that is empty at import time (lock tables, sets of ids, ...):
+            # emptied again between executions, because threads killed at teardown skip their clean-up
             _lock_tables.append(val)
         if new is not None:
             orig[name] = val
